@@ -128,7 +128,7 @@ def value_for(site, k):
 
 @st.composite
 def _case(draw, tier):
-    n = draw(st.integers(3, 12))
+    n = draw(st.sampled_from([3, 4, 5, 6, 8, 10, 12]))
     two = draw(st.booleans())
     sites = []
     for i in range(n):
@@ -140,7 +140,7 @@ def _case(draw, tier):
 
     def script():
         out = []
-        for _ in range(draw(st.integers(n, 4 * n))):
+        for _ in range(draw(st.sampled_from([n, 2 * n, 3 * n, 4 * n]))):
             s = sites[draw(st.integers(0, n - 1))]
             out.append((s["id"], value_for(s, draw(st.integers(0, 20)))))
         return out
